@@ -2,7 +2,7 @@
 import vlib, coqreplay
 from props import solverstream as ss, tracecheck as tc
 
-THEOREMS = ["C15_exclusive", "C15_each_selectable", "C15_none_selectable", "C15_invariant", "C15_readd_noop", "C15_add_emits_fresh_clauses", "C15_encoder_step_registers", "C15_new_forbid_clause_not_falsified"]
+THEOREMS = ["C15_exclusive", "C15_each_selectable", "C15_none_selectable", "C15_invariant", "C15_readd_noop", "C15_add_emits_fresh_clauses", "C15_encoder_step_registers", "C15_new_forbid_clause_not_falsified", "C15_solution_members_registered"]
 CHECKER = ("coqc Props/C15.v + Print Assumptions; harness solve_cases class amo (n = 1..N candidates, random partition/order): "
            "(a) forbid clauses from the hook dump = amo_clauses(registration order) as Coq Examples (vm_compute; reflexivity), "
            "(b) verdict of single / pair problems vs the verified reference, (c) trace checker on the logs")
